@@ -54,6 +54,7 @@ def expr_stream(rng: random.Random, tier: str, n_random: int, depth_q: int = 4, 
     if rules and set(kinds) >= set(gen.ALL):
         out += gen.rich_shapes(rng, max(40, n_random // 3))
         out += gen.unary_chains(rng, max(30, n_random // 4))
+        out += gen.scaled(rng, max(24, n_random // 8))
         from .core import changed_classes
         focus = [k for k in changed_classes() if k in kinds]
         if focus:       # the classes whose source changed: shapes rooted at them, bare and inside random parents
